@@ -124,14 +124,16 @@ def check_program(part, pool_, source, tags, switches, label, skip_runtimes=()):
         part["discarded"]["source-not-valid-on-%s" % runtimes[0]] += 1
         return None
     want = {}
+    want_log = {}
     for rt in runtimes:
-        o = pool_.get(rt).call({"op": "run", "text": source, "mode": "exec"})
+        o = pool_.get(rt).call({"op": "run", "text": source, "mode": "exec", "want_log": True})
         if o.get("worker_error"):
             raise env.HarnessError("runtime worker %s: %s" % (rt, o.get("err")))
         if not o.get("ok"):
             part["discarded"]["original-raises-on-%s" % rt] += 1
             return None
         want[rt] = o["stdout"]
+        want_log[rt] = o.get("log")
     field_lit = None
     esc_lit = None
     preds = {}
@@ -193,7 +195,7 @@ def check_program(part, pool_, source, tags, switches, label, skip_runtimes=()):
                     "what": "%s: refused on host %s only (%s)" % (label, host, env.cfg_name(cfg))}
     for text, origins in texts.items():
         for rt in runtimes:
-            e = pool_.get(rt).call({"op": "run", "text": text, "mode": "eval"})
+            e = pool_.get(rt).call({"op": "run", "text": text, "mode": "eval", "want_log": True})
             if e.get("worker_error"):
                 raise env.HarnessError("runtime worker %s: %s" % (rt, e.get("err")))
             part["evaluations"] += 1
@@ -207,6 +209,11 @@ def check_program(part, pool_, source, tags, switches, label, skip_runtimes=()):
                 d = ["output of host %s does not run on runtime %s: %s %s" % (host, rt, e.get("err"), e.get("errmsg"))]
             elif e["stdout"] != want[rt]:
                 d = ["stdout on runtime %s differs from the source's: %r vs %r" % (rt, e["stdout"][:200], want[rt][:200])]
+            elif e.get("log") != want_log[rt]:
+                a, b = want_log[rt] or [], e.get("log") or []
+                i = next((j for j in range(min(len(a), len(b))) if a[j] != b[j]), min(len(a), len(b)))
+                d = ["probe trace on runtime %s differs from the source's at index %d: %r vs %r" % (
+                    rt, i, a[i] if i < len(a) else None, b[i] if i < len(b) else None)]
             if d:
                 return {"payload": {"kind": "xrt", "src": source, "host": host, "cfg": list(cfg), "runtime": rt},
                         "diffs": d, "what": "%s: output converted on %s (%s) misbehaves on runtime %s" % (
@@ -326,6 +333,17 @@ def run(report):
     progs = sorted(pool.all_programs().items()) + sorted(pool.VERSION_SENSITIVE.items())
     nsh = min(env.NPROC, 12)
     items = [("corpus", progs[i::4], switches) for i in range(4)]
+    # a seeded stride of the G-NEST interaction programs (all valid on 3.8)
+    from ..gen import nest
+    ncases = list(nest.triples()) + list(nest.item_pairs()) + list(nest.deep())
+    stride = 97 if quick else 11
+    nprogs = []
+    for k in range(report.seed % stride, len(ncases), stride):
+        src = nest.build(*ncases[k])
+        if src is not None:
+            nprogs.append(("interaction %s > %s" % (" > ".join(ncases[k][0]), " ; ".join(ncases[k][1])), src))
+    items += [("corpus", nprogs[i::4], switches) for i in range(4)]
+    report.extra["interaction_programs"] = len(nprogs)
     depth_cases = [(k, n) for k in DEPTH_KINDS for n in (DEPTHS_QUICK if quick else DEPTHS_THOROUGH)]
     items += [("depth", depth_cases[i::4], switches) for i in range(4)]
     per = 20 if quick else 300
@@ -334,7 +352,7 @@ def run(report):
         report.absorb(part)
     report.assumptions += ["the interpreters baked into the image under /root/.pyenv/versions are the runtimes; "
                            "3.14 is not available offline",
-                           "only stdout is compared across runtimes"]
+                           "per runtime, stdout and the probe trace of the output are compared with those of the source on the same runtime"]
 
 
 def replay(payload):
@@ -348,14 +366,16 @@ def replay(payload):
             return ["conversion on host %s raised %s" % (host, c.get("err"))]
         out = []
         for r in ([rt] if rt else pl.runtimes()):
-            o = pl.get(r).call({"op": "run", "text": payload["src"], "mode": "exec"})
-            e = pl.get(r).call({"op": "run", "text": c["text"], "mode": "eval"})
+            o = pl.get(r).call({"op": "run", "text": payload["src"], "mode": "exec", "want_log": True})
+            e = pl.get(r).call({"op": "run", "text": c["text"], "mode": "eval", "want_log": True})
             if not o.get("ok"):
                 return ["witness is outside the domain: the source raises on runtime %s" % r]
             if not e.get("ok"):
                 out.append("output of host %s does not run on runtime %s: %s %s" % (host, r, e.get("err"), e.get("errmsg")))
             elif e["stdout"] != o["stdout"]:
                 out.append("stdout on runtime %s differs" % r)
+            elif e.get("log") != o.get("log"):
+                out.append("probe trace on runtime %s differs" % r)
         return out
     finally:
         pl.close()
